@@ -231,7 +231,7 @@ fn c11_scn(label: &str, mask: Option<&'static str>, defm: (bool, bool, bool, boo
     let mut s = ChatScn::new(&format!("c11-{}", label), cfg, vec![part(0, "ann", "op", "au"), part(1, "ben", "benny", "bu"), part(2, "wit", "witty", "wu")], 0);
     s.prelude = vec![(2, "MODE wit +w".into())];
     let mut a: Vec<&'static str> = vec![
-        "OPER op oppw", "OPER op bad", "OPER nosuch oppw", "MODE {me} +o", "MODE {me} -o", "MODE {me} +O", "MODE {me} -O", "MODE {me} +w", "MODE {peer} +o", "NICK {alt}", "KILL {peer} :c", "WALLOPS :m", "STATS u", "DIE", "SQUIT irc.irc :c",
+        "OPER op oppw", "OPER op bad", "OPER nosuch oppw", "MODE {me} +o", "MODE {me} -o", "MODE {me} +O", "MODE {me} -O", "MODE {me} +w", "MODE {peer} +o", "NICK {alt}", "KILL {peer} :c", "WALLOPS :m", "STATS u", "DIE", "SQUIT irc.irc :c", "USER root 8 * :Root", "PASS oppw",
     ];
     if full {
         a.extend(["MODE {me} -w", "MODE {me} +i", "MODE {me} +oO", "MODE {me} -o+o", "MODE {me} -oO", "KILL nosuch :c", "KILL {me} :c", "SQUIT other.net :c", "QUIT", "MODE {peer} -o", "DIE :msg"]);
@@ -304,7 +304,7 @@ pub fn c20_oper_parts(quick: bool) -> Vec<Part> {
 
 fn c11_plan_parts(quick: bool) -> Vec<Part> {
     let mut parts = vec![];
-    let masks: Vec<(&str, Option<&'static str>)> = vec![("nomask", None), ("mask-match", Some("*!~au@127.0.0.1")), ("mask-mismatch", Some("*!*@10.*"))];
+    let masks: Vec<(&str, Option<&'static str>)> = vec![("nomask", None), ("mask-match", Some("*!~au@127.0.0.1")), ("mask-mismatch", Some("*!*@10.*")), ("mask-other-username", Some("*!~root@127.0.0.1"))];
     let defs: Vec<(&str, (bool, bool, bool, bool, bool))> = vec![("def-none", (false, false, false, false, false)), ("def-oper", (false, true, false, false, false)), ("def-localoper", (false, false, true, false, false)), ("def-wallops", (false, false, false, false, true))];
     for (ml, m) in &masks {
         for (dl, d) in &defs {
@@ -382,6 +382,20 @@ fn c19_channels_scn() -> ChatScn {
     s.extra_actions = None;
     s.invariants = vec!["invisible-count", "operators-count", "max-users", "empty-channel", "membership-symmetry"];
     s.focus.cats.push(Cat::Ranks);
+    s
+}
+
+/// The channel count next to refused JOINs (max_joins = 1): a refused JOIN forms no channel.
+fn c19_quota_scn() -> ChatScn {
+    let mut s = c19_channels_scn();
+    s.name = "c19-channel-count-quota".into();
+    s.cfg.max_joins = Some(1);
+    s.cfg.label = "max_joins=1".into();
+    s.alphabet_for.retain(|(_, t)| !t.starts_with("MODE") && !t.starts_with("KICK #y"));
+    for slot in 0..2 {
+        s.alphabet_for.push((slot, "JOIN #z,#y"));
+        s.alphabet_for.push((slot, "PART #y"));
+    }
     s
 }
 
@@ -639,6 +653,7 @@ pub fn plan(property: &str, quick: bool) -> Plan {
                 // every user starts as a local operator (default_user_modes.local_oper): OPER, -o, -O, endings
                 p.push(Part::Bfs(Box::new(c19_localoper_scn(!quick)), lim(if quick { 4 } else { 5 }, 2_000_000, t(20.0, 600.0))));
                 p.push(Part::Bfs(Box::new(c19_channels_scn()), lim(if quick { 6 } else { 7 }, 2_000_000, t(20.0, 600.0))));
+                p.push(Part::Bfs(Box::new(c19_quota_scn()), lim(if quick { 5 } else { 7 }, 2_000_000, t(20.0, 600.0))));
                 for max in [1usize, 2, 3] {
                     p.push(Part::Bfs(Box::new(Slots { max, with_password: false }), lim(if quick { 7 } else { 10 }, 2_000_000, t(5.0, 300.0))));
                 }
